@@ -117,10 +117,16 @@ for P in [12, 13, 14, 15, 16, 17, 18, 19, 20]:
     J('rans.fetch_sym.contract.P%d' % P, 'h_enf_RAnsDecoder_fetch_sym', ['C08', 'C02'], enforce='RAnsDecoder_fetch_sym', defines=d, tier=t)
     J('rans.rans_read.contract.P%d' % P, 'h_enf_RAnsDecoder_rans_read', ['C08', 'C02'], enforce='RAnsDecoder_rans_read', replace=['RAnsDecoder_fetch_sym'], loops=True, defines=d, tier=t)
     J('rans.lut.harness.P%d' % P, 'h_rans_lut', ['C08', 'C02', 'C18'], replace=['vec_u32_resize', 'vec_sym_resize'], loops=True, defines=d, tier=t, timeout=1500, cost=8)
-    for k in range(0, P + 1):
-        lo, hi = 1 << k, min((1 << (k + 1)) - 1, 1 << P)
-        J('rans.step.P%d.prob_2e%d' % (P, k), 'h_rans_step', ['C08'], defines=d + ['-DRS_PROB_LO=%d' % lo, '-DRS_PROB_HI=%d' % hi], unwind=4,
-          unwind_reason='renormalisation loop emits <= 2 bytes (checked by the unwinding assertion)', native=True, tier=t, timeout=1500, cost=9)
+    # rans.step: one symbol, all states; division by the VARIABLE prob is what SAT back ends cannot scale (measured: a 2^11-wide prob range does not
+    # finish in 25 min on any back end), so the proof is tiled over prob: whole octaves up to 2^5, 16-value tiles above.  Quick tier: the low
+    # octaves plus boundary tiles; thorough tier: every tile for P=12 (252 + 7 jobs) and the boundary tiles for the other P.
+    tiles = [(1 << k, (1 << (k + 1)) - 1) for k in range(0, 6)]
+    allt = [(lo, min(lo + 15, 1 << P)) for lo in range(64, (1 << P) + 1, 16)] if P == 12 else []
+    bnd = [(64, 79), (1 << (P - 1), (1 << (P - 1)) + 15), ((1 << P) - 16, (1 << P) - 1), (1 << P, 1 << P)]
+    for lo, hi in tiles + bnd + [x for x in allt if x not in bnd]:
+        quick = (P in (12, 20)) and ((lo, hi) in tiles or (lo, hi) in bnd)
+        J('rans.step.P%d.prob_%d_%d' % (P, lo, hi), 'h_rans_step', ['C08'], defines=d + ['-DRS_PROB_LO=%d' % lo, '-DRS_PROB_HI=%d' % hi], unwind=4,
+          unwind_reason='renormalisation loop emits <= 2 bytes (checked by the unwinding assertion)', native=True, tier=None if quick else 'thorough', timeout=900, cost=6, no_vacuity=not quick)
 TYPES_PRELUDE = ['vec_ans.h', 'core_types.h']
 SLICE_PRELUDE = []
 NATIVE_SOURCES = ['src/draco/core/divide.cc']
